@@ -82,6 +82,145 @@ def classify_missing(evs):
             if h:
                 ev.missing[p] = F_STOPLOSS
 
+def classify_missing_donor(evs):
+    """C01 face of C02-as-donor-record (an <INS>/<SUB> whose donor segment carries small records), two narrow forms:
+      prefix  the run reports an unrealizable sequence classified C02-as-donor-record that is a proper prefix of the
+              missing peptide (the path was cut in front of a donor record: the full product is lost with it)
+      corrupt the same with 'runs together with it for >= 4 residues from either end, up to one residue' (the donor part garbled)
+      twin    the run reports another OBLIGED peptide whose derivation carries the same AS record and the same
+              records inside / behind the event over an overlapping span, but the OTHER allele of a record in front
+              of the event: the paths through the inserted sub-graph keep only one allele of an upstream record
+              (which one depends on the hash order)
+      downstream  the run reports a garbled sequence under this AS record and the peptide has an obliged derivation that
+              carries no record of the donor segment and reaches behind the start of the inserted piece (the garbled
+              path loses the frame; haplotypes that CARRY the donor's frameshift record are not covered by this form)
+      anchor  the run reports a garbled sequence (any header) and the peptide is an obliged product of the PLAIN transcript
+              whose span reaches the anchor region of the AS record (the slip garbles the reference path as well)
+      flicker the peptide IS reported when the same input is run again under another PYTHONHASHSEED: the output is
+              not a function of the input (checked only for inputs whose donor segment carries small records)"""
+    for ev in evs:
+        c = ev.case
+        if ev.exc or not ev.missing or not c.get('as_records'):
+            continue
+        todo = [p for p, t in ev.missing.items() if t is None]
+        if not todo:
+            continue
+        cut = [q for q, t in ev.extra.items() if t == F_AS_DONOR]
+        def lcp1(q, p):
+            """length of the common prefix of q and p up to one differing residue"""
+            n, miss = 0, 0
+            for x_, y_ in zip(q, p):
+                if x_ != y_:
+                    miss += 1
+                    if miss > 1:
+                        break
+                n += 1
+            return n
+        def near(q, p):
+            # the corrupted sequence q and the lost product p run together for at least 4 residues from either end
+            # (q a cut-off prefix of p; q = p with the donor part garbled), up to the twin allele of one record
+            return q != p and (lcp1(q, p) >= 4 or lcp1(q[::-1], p[::-1]) >= 4)
+        for p in todo:
+            if any(near(q, p) for q in cut):
+                ev.missing[p] = F_AS_DONOR
+        todo = [p for p in todo if ev.missing[p] is None]
+        if not todo:
+            continue
+        prots = CG.proteome(c['world'])
+        coarse = {}
+        if cut:
+            # anchor form: the frame slip next to the anchor also garbles the path that does NOT carry the AS record (the
+            # run reports such a sequence, classified C02-as-donor-record); an obliged product of the PLAIN transcript whose
+            # span reaches the anchor region (3 nt in front of it or anything behind) is lost with it
+            for tx_id in sorted(set(r['tx'] for r in c['as_records'])):
+                asr = [a for a in CG2.as_inputs(c, tx_id) if a[3]]
+                if not asr or not ev.recs.get(tx_id):
+                    continue
+                x = CG.tx_input(c, tx_id, ev.recs.get(tx_id, []), ev.run, prots)
+                lo = min(a[0] for a in asr) - 3
+                for q, w in O.call('cv_must_witnesses_of', [x, todo]):
+                    pq = O.U(q)
+                    if ev.missing.get(pq, 0) is None and w[1] + 3 * w[5] > lo:
+                        ev.missing[pq] = F_AS_DONOR
+            todo = [p for p in todo if ev.missing[p] is None]
+            if not todo:
+                continue
+        reported = [q for q in ev.must if q in ev.got][:300]
+        for tx_id in sorted(set(r['tx'] for r in c['as_records'])):
+            x = CG.tx_input(c, tx_id, ev.recs.get(tx_id, []), ev.run, prots)
+            for a in CG2.as_inputs(c, tx_id):
+                if not a[3]:
+                    continue                      # donor segment without small records: judged strictly
+                ders = O.call('cv_as_must_derivs', [x, a, todo + reported])
+                by = {}
+                for q, h, st, ia, ib in ders:
+                    hh = [(s0, e0, O.U(al)) for s0, e0, al in h]
+                    up = tuple(w for w in hh if w[1] <= a[0])
+                    rest = tuple(w for w in hh if w[1] > a[0])
+                    # records of the haplotype that lie inside the peptide's own span (haplotype coordinates)
+                    lo, hi, sh, inspan = st + 3 * ia, st + 3 * ib, 0, []
+                    for w in hh:
+                        p0 = w[0] + sh
+                        if p0 < hi and lo < p0 + max(1, len(w[2])):
+                            inspan.append(w)
+                        sh += len(w[2]) - (w[1] - w[0])
+                    by.setdefault(O.U(q), []).append((up, rest, ia, ib, inspan, hi))
+                rep = [d for q in reported for d in by.get(q, [])]
+                as_ids = [r['row']['id'] for r in c['as_records'] if r['tx'] == tx_id and [r['a'], r['b']] == a[:2]]
+                garbled = [q for q in cut if any(set(h.split('|')[1:]) & set(as_ids) for h in ev.got.get(q, []))]
+                behind = a[0] + len(a[2])          # first backbone position behind the inserted piece
+                for p in todo:
+                    if ev.missing[p] is not None:
+                        continue
+                    for up, rest, ia, ib, _sp, _h in by.get(p, []):
+                        if any(r2 == rest and u2 != up and ia < b2 and a2 < ib for u2, r2, a2, b2, _s2, _h2 in rep):
+                            ev.missing[p] = F_AS_DONOR
+                            break
+                    ds = by.get(p, [])
+                    if ev.missing[p] is None and garbled and any(
+                            not any(a[0] <= w[0] < behind for w in rest) and sp_hi > a[0] for up, rest, ia, ib, sp, sp_hi in ds):
+                        # downstream form: the run reports a garbled sequence (classified C02-as-donor-record) under this AS
+                        # record, and p has an obliged derivation that carries NO record of the donor segment and reaches behind
+                        # the start of the inserted piece: the garbled path loses the frame, everything behind it is lost with it
+                        ev.missing[p] = F_AS_DONOR
+                    if ev.missing[p] is None and ds and any(all(w[0] < behind for w in sp) for up, rest, ia, ib, sp, _h in ds):
+                        # coarse form: p has an obliged derivation whose span holds no record BEHIND the event -- the garbling
+                        # concerns the inserted piece itself; haplotypes with a downstream record stay strictly judged
+                        coarse.setdefault(id(ev), set()).add(p)
+        _apply_coarse(ev, coarse)
+
+def _apply_coarse(ev, coarse):
+    for p in coarse.get(id(ev), ()):
+        if ev.missing.get(p, 0) is None:
+            ev.missing[p] = F_AS_DONOR
+            ev.raw['as_donor_coarse_missing'] = ev.raw.get('as_donor_coarse_missing', 0) + 1
+
+def classify_missing_flicker(evs, seeds=('0', '1', '2', '3', '4', '5')):
+    from harness.lib import impl as I
+    import json as _json
+    sel = []
+    for ev in evs:
+        c = ev.case
+        if ev.exc or not c.get('as_records') or not any(t is None for t in ev.missing.values()):
+            continue
+        if not any(r['kind'] != 'DEL' and any(a[3] for a in CG2.as_inputs(dict(c, as_records=[r]), r['tx'])) for r in c['as_records']):
+            continue
+        sel.append(ev)
+    if not sel:
+        return
+    cases = [_json.loads(_json.dumps(dict({k: v for k, v in ev.case.items() if not k.startswith('_')}, runs=[ev.run]))) for ev in sel]
+    seen = [set() for _ in sel]
+    for hs in seeds:
+        res = I.run_cases('callvariant2', cases, jobs=16, tag='flick' + hs, hashseed=hs, timeout=3600)
+        for k, r in enumerate(res):
+            r0 = r['runs'][0] if 'runs' in r else r
+            seen[k] |= set(sq for _h, sq in r0.get('fasta', []))
+    for ev, sn in zip(sel, seen):
+        for p, t in list(ev.missing.items()):
+            if t is None and p in sn:
+                ev.missing[p] = F_AS_DONOR
+                ev.raw['as_donor_flicker'] = ev.raw.get('as_donor_flicker', 0) + 1
+
 def classify(evs):
     classify_missing(evs)
     for ev in evs:
@@ -127,6 +266,28 @@ def classify(evs):
         for p, h in zip(fine, hit):
             if h:
                 ev.extra[p] = F_AS_DONOR
+        # anchor slip: the frame slip also shows on the path that does NOT carry the AS record -- the sequence is realizable on
+        # the plain transcript when 1-2 reference bases from 3 nt in front of to 8 nt behind either end of the replaced interval of an <INS>/<SUB> with donor records are dropped
+        rest_ = [p for p in todo if ev.extra[p] is None]
+        if rest_:
+            reqs2 = []
+            for tx_id in sorted(set(r['tx'] for r in c['as_records'])):
+                x = CG.tx_input(c, tx_id, ev.recs.get(tx_id, []), ev.run, prots)
+                for a in CG2.as_inputs(c, tx_id):
+                    if not a[3]:
+                        continue
+                    for q0 in sorted(set(q_ for e_ in (a[0], a[1]) for q_ in range(max(0, e_ - 3), min(len(x[0]) - 2, e_ + 9)))):
+                        for d in (1, 2):
+                            if any(v[0] < q0 + d and q0 < v[1] for v in x[6]) or len(x[6]) > 9:
+                                continue
+                            x2 = list(x); x2[6] = sorted(x[6] + [[q0, q0 + d, '', True]], key=lambda v: (v[0], v[1]))
+                            reqs2.append(('cv_realizable', [x2, rest_]))
+            hit2 = [False] * len(rest_)
+            for o in O.call_many(reqs2[:300]):
+                hit2 = [u or bool(w) for u, w in zip(hit2, o)]
+            for p, h in zip(rest_, hit2):
+                if h:
+                    ev.extra[p] = F_AS_DONOR
         # coarse tier: the peptide is reported FOR an <INS>/<SUB> record whose donor segment carries small records
         with_donor = set()
         for r in c['as_records']:
@@ -136,3 +297,5 @@ def classify(evs):
             if ev.extra[p] is None and any(set(h.split('|')[1:]) & with_donor for h in ev.got.get(p, [])):
                 ev.extra[p] = F_AS_DONOR
                 ev.raw['as_donor_coarse'] = ev.raw.get('as_donor_coarse', 0) + 1
+    classify_missing_donor(evs)
+    classify_missing_flicker(evs)
